@@ -121,6 +121,19 @@ Theorem pct_text_decodes : forall plus t, pct_text plus t -> exists s, unescape 
 Proof. exact pct_text_decodes_l. Qed.
 Print Assumptions pct_text_decodes.
 
+(* "accept exactly the well-formed inputs", for the byte decoders: base64_decode answers a string
+   exactly when its input, CR/LF removed, is an RFC 4648 text (groups of four alphabet characters, the
+   last one possibly padded); urldecode / rawurldecode take the "return the input unchanged" fallback
+   exactly when some '%' is not followed by two hexadecimal digits *)
+Theorem base64_accepts_iff : forall d,
+  (exists s, base64_decode d = Some s) <-> b64_text (filter (fun c => negb (is_nl c)) d).
+Proof. exact base64_accepts_iff_l. Qed.
+Print Assumptions base64_accepts_iff.
+
+Theorem unescape_accepts_iff : forall plus s, (exists t, unescape plus s = Some t) <-> pct_escaped s.
+Proof. exact unescape_accepts_iff_l. Qed.
+Print Assumptions unescape_accepts_iff.
+
 (* ====================================================================== (3) serialize / unserialize *)
 (* "the matching decoder inverts it exactly": for every value built from null, bool, 64-bit int, float,
    byte string (any bytes: quotes, semicolons, NUL), list and string-keyed map, nested arbitrarily,
